@@ -82,7 +82,7 @@ CLAIMS = {
    note="Trusted: TLC, fake App Engine API with fault injection on datastore Put by kind. The 30 s 504 path is not exercised in the quick tier.",
    design="6 C19"),
  "C01": dict(engine="Relay", technique="TLA+ spec Relay checked by TLC (exhaustive interleavings, liveness, IdCollision attack) + TLC trace validation (RelayTrace) of recorded executions of the real proxy/agent binaries, incl. -race builds",
-   text="Bounded-exhaustive model checking of the proxy/agent relay design (all interleavings of 3 requests, 2-3 pollers, faults) plus conformance: every hook/observable event of bursts of up to 64 concurrent clients through the real binaries must be a behaviour of the specification, with the correlation invariants evaluated at every step.",
+   text="Bounded-exhaustive model checking of the proxy/agent relay design (all interleavings of 3 requests, 2-3 pollers, faults) plus conformance: every hook/observable event of bursts of up to 64 concurrent clients through the real binaries must be a behaviour of the specification, with the correlation invariants evaluated at every step; in addition TLC enumerates every well-formed schedule of the proxy's environment for two requests (send, list, foreign list, fetch, post, client disconnect; 738 schedules of <= 7 steps) and a seeded sample (120 quick / all thorough) is performed step by step on the real proxy with the harness playing the agent, each run validated by RelayTrace.",
    note="Trusted: TLC, the token projection of the harness backend/clients, hook placement (receiver side of channel rendezvous). Bounds: 3 requests in the model, <=64 concurrent clients per burst in the runs. Race-detector reports count only with both stacks in repository code.",
    design="6 C01"),
 }
